@@ -48,9 +48,11 @@ def exact_guards(cx, rule, key, f, site_block, required, allowed, what, loc):
     m = cx.m
     # deciding conditions (control dependence over the path-sensitive CFG, vlib/ctrl.py) rather than dominating guards: the
     # same set for `a || b`, for a named temporary and for a condition moved into a `match`
-    from vlib.ctrl import deciding
-    descs = sorted({gdesc(m, g) for g in deciding(m, f, site_block, mode="value") if not g.neutral})
-    missing = [p for p in required if not any(re.search(p, d) for d in descs)]
+    from vlib.model import conditions_of
+    conds = [g for g in conditions_of(m, f, site_block, mode="value") if not g.neutral]
+    descs = sorted({gdesc(m, g) for g in conds})
+    must = sorted({gdesc(m, g) for g in conds if g.necessary})
+    missing = [p for p in required if not any(re.search(p, d) for d in must)]
     extra = [d for d in descs if not any(re.search(p, d) for p in list(required) + list(allowed))]
     cx.ob(rule, key, not missing and not extra, what + " (guards: %s)" % descs, loc,
           **({"missing": missing} if missing else {}), **({"unexpected": extra} if extra else {}))
